@@ -24,6 +24,8 @@ struct Config {
   int photons;
   int iterations;
   double density;       // cm^-3
+  int buffers = 256;    // size of the photon buffer pool
+  bool post_points = false; // also schedule after every modifying atomic operation
 };
 
 static std::string param_text(const Config &c) {
@@ -52,7 +54,7 @@ static std::string param_text(const Config &c) {
          "  total flux: 1.e13 m^-2 s^-1\n";
   }
   o << "TaskBasedIonizationSimulation:\n  diffuse field: " << (c.diffuse ? "true" : "false")
-    << "\n  number of buffers: 256\n  number of tasks: 1024\n  queue size per thread: 256\n"
+    << "\n  number of buffers: " << c.buffers << "\n  number of tasks: 1024\n  queue size per thread: 256\n"
        "  shared queue size: 256\n  source copy level: "
     << c.copy_level << "\n  number of photons: " << c.photons
     << "\n  number of iterations: " << c.iterations << "\n  random seed: 42\n";
@@ -101,6 +103,13 @@ int main(int argc, char **argv) {
                  int copy, int photons, int iters, double dens) {
     cfgs.push_back(Config{name, nx, ny, nz, px, false, false, sources, cont, diffuse, copy, photons, iters, dens});
   };
+  auto tight = [&](const char *name, int base, int buffers) {
+    Config c = cfgs[base];
+    c.name = name;
+    c.buffers = buffers;
+    c.post_points = true;
+    cfgs.push_back(c);
+  };
   //   name             layout   px    src cont  diff  copy N  it  density
   // densities are chosen so that the optical depth of the box is of order one:
   // packets cross subgrid boundaries, some are absorbed, some escape
@@ -119,6 +128,10 @@ int main(int argc, char **argv) {
   add("thin-1x1x2", 1, 1, 2, false, 1, false, false, 0, 10, 1, 0.002);
   add("single-subgrid", 1, 1, 1, false, 1, false, true, 0, 7, 2, 0.02);
   add("opaque-diffuse", 2, 1, 1, false, 1, false, true, 0, 7, 1, 100.);
+  // tight buffer pools: the round-robin cursor wraps around, freed buffers are
+  // re-used at once (capacity is still never exhausted, see NOTES)
+  tight("tight-pool-plain", 0, (int)A.geti("tight", 8));
+  tight("tight-pool-diffuse", 2, (int)A.geti("tight", 8));
 
   if (!A.get("dump-params").empty()) {
     // write the parameter files of all configurations (used by the TSan audit)
@@ -223,6 +236,7 @@ int main(int argc, char **argv) {
       e1::sched.monitor = monitor;
       e1::sched.max_steps = 300000;
       e1::sched.livelock_yields = 200;
+      e1::sched.post_points = J.cfg.post_points;
       g_expect_continuous = J.cfg.continuous;
       if (!freopen("/dev/null", "w", stdout)) {
       }
